@@ -3,14 +3,19 @@ import vlib
 ID = 'C20'
 LEAN_MODULES = ['TboxModel.C20.Props']
 EXE = 'c20'
+MODE = 'trace'
 THEOREMS = ['Tbox.C20.C20_weekly_earliest', 'Tbox.C20.C20_weekly_empty_mask', 'Tbox.C20.C20_oneshot_earliest',
             'Tbox.C20.C20_workday_earliest', 'Tbox.C20.C20_workday_none', 'Tbox.C20.C20_workday_beyond_scan_counterexample',
             'Tbox.C20.C20_tz', 'Tbox.C20.C20_delay_not_short', 'Tbox.C20.C20_delay_u32_counterexample',
             'Tbox.C20.C20_targets_strictly_increase', 'Tbox.C20.C20_enable_after_disable_earliest',
             'Tbox.C20.C20_stale_target_counterexample', 'Tbox.C20.C20_oneshot_once', 'Tbox.C20.C20_oneshot_expiry_idle', 'Tbox.C20.C20_disabled_never_fires',
-            'Tbox.C20.C20_fired_was_enabled']
+            'Tbox.C20.C20_fired_was_enabled', 'Tbox.C20.C20_watch_alive', 'Tbox.C20.C20_destroy_unpatched_counterexample',
+            'Tbox.C20.C20_world_callbacks_enabled', 'Tbox.C20.C20_once_per_instant_partial', 'Tbox.C20.C20_world_targets_increase',
+            'Tbox.C20.C20_refresh_in_early_callback_counterexample', 'Tbox.C20.C20_cron_earliest', 'Tbox.C20.C20_cron_none',
+            'Tbox.C20.wExec_inv']
 SOURCES = ['modules/alarm/alarm.cpp', 'modules/alarm/weekly_alarm.cpp', 'modules/alarm/oneshot_alarm.cpp',
-           'modules/alarm/workday_alarm.cpp', 'modules/alarm/workday_calendar.cpp'] + vlib.EVENT_SOURCES + vlib.BASE_SOURCES
+           'modules/alarm/workday_alarm.cpp', 'modules/alarm/workday_calendar.cpp', 'modules/alarm/cron_alarm.cpp',
+           'modules/alarm/3rd-party/ccronexpr.cpp'] + vlib.EVENT_SOURCES + vlib.BASE_SOURCES
 FLAVOUR = 'asan'
 LIBS = ['-ldl']
 BATCH = 200
@@ -24,14 +29,23 @@ TRUSTED = ['model lean/TboxModel/C20/Model.lean hand-written from modules/alarm/
            'the loop TimerEvent under the alarm is the C02 timer (one-shot, fires in the first pass with mono >= armed-at + delay); '
            'here it is one optional deadline per alarm',
            'virtual wall + monotonic clocks by libc interposition (harness/vtime.h); system time zone fixed to UTC (TZ=UTC) when setTimezone() was not called',
-           'cron alarm: delegates to the third-party ccronexpr (modules/alarm/3rd-party) — not modelled, not tied in this package']
+           'cron alarm: CronAlarm delegates to the THIRD-PARTY evaluator ccronexpr (modules/alarm/3rd-party), which is not modelled; it is tied BY '
+           'CORRESPONDENCE ONLY to the independent reference lean/TboxModel/C20/Cron.lean (proved to return the declaratively earliest matching '
+           'instant) for expression shapes `sec min hour dom mon dow` built from lists, ranges, steps and *; day rule as ccronexpr implements it: '
+           'day-of-month AND weekday (both restricted => both must hold), Sunday = 0 or 7; names (JAN, SUN), ? and L/W/# are outside the tie',
+           'which of several due timers the loop serves first is taken from the implementation trace (trace acceptor, as C02)']
 ASSUMPTIONS = ['instants are at least 368 days before the end of the uint32 epoch range (2106-02-07): t + 368*86400 <= 2^32 (weekly: 9 days) — beyond it the '
                'uint32 sums of the code wrap; the model wraps identically (checked by correspondence) but the theorems exclude it',
                'local time start + offset >= 0 (no uint32 wrap below 1970 for negative time-zone offsets)',
-               'the alarm is not destroyed while it is still in a calendar watch list (see report: ~Alarm cannot call WorkdayAlarm::onDisable)']
+               'an alarm is not destroyed from inside its own callback (the code asserts against it)',
+               'cron: generated expressions never restrict day-of-month, month and weekday all at once and keep a day <= 28 reachable when the month is '
+               'restricted (ccronexpr gives up, returning (time_t)-1, when the month has to advance more than 4 years after the start: CRON_MAX_YEARS_DIFF); '
+               't at least 5 years before the end of the uint32 range']
 RULE = ('(1) pure: calculateNextLocalTimeSec of weekly/oneshot/workday probes on generated (seconds-of-day, mask, calendar, t) with t at day/week '
         'boundaries +-2 s over the whole uint32 range; (2) histories of up to 4 alarms on the real loop: new/init/tz/enable/disable/refresh/cleanup, '
-        'calendar updates, clock advances landing at target-1ms/target/target+1ms, monotonic-ahead skew, wall-clock jumps, distances up to > 1 year; '
+        'calendar updates, destruction, callback scripts (refresh/disable/enable of any alarm, destroy another alarm, calendar updates from inside callbacks), '
+        'clock advances landing at target-1ms/target/target+1ms, monotonic-ahead skew, wall-clock jumps, distances up to > 1 year; (3) cron_next of the '
+        'third-party evaluator against the reference on generated expressions (lists/ranges/steps/*) with t at month/year/leap boundaries; '
         'non-trivial = a callback fired (on time, early or late), or an arm farther than 2^32 ms, or a scan that went past today; distinct = distinct op text')
 
 D = 86400
@@ -153,7 +167,22 @@ def gen_history(rng, nsteps):
     n = rng.choice([1, 1, 2, 3, 4])
     for i in range(n):
         kind = rng.choice(['wk', 'wk', 'os', 'wd', 'wd'])
-        ops.append('new %d %s' % (i, kind))
+        script = '-'
+        if rng.random() < 0.4:
+            acts = []
+            for _ in range(rng.choice([1, 1, 2, 3])):
+                j = rng.choice([i, i, rng.randrange(n)])
+                r2 = rng.random()
+                if r2 < 0.35: acts.append('rf%d' % j)
+                elif r2 < 0.5: acts.append('dis%d' % j)
+                elif r2 < 0.65: acts.append('en%d' % j)
+                elif r2 < 0.75 and j != i: acts.append('del%d' % j)
+                elif r2 < 0.85: acts.append('cm%d' % rng.choice([0, 62, 127, rng.randrange(256)]))
+                else:
+                    day = wall[0] // 1000 // D
+                    acts.append('cs' + ('+'.join('%d:%d' % (day + rng.randrange(0, 9), rng.randrange(2)) for _ in range(rng.randrange(0, 3))) or '-'))
+            script = ','.join(acts) or '-'
+        ops.append('new %d %s %s' % (i, kind, script) if script != '-' or rng.random() < 0.5 else 'new %d %s' % (i, kind))
         a = {'kind': kind, 'sod': 0, 'mask': 127, 'wd': True, 'tz': 0, 'on': False}
         al[i] = a
         if rng.random() < 0.7:
@@ -218,13 +247,23 @@ def gen_history(rng, nsteps):
             if rng.random() < 0.5:
                 cal['mask'] = mask; ops.append('calmask %d' % mask)
             cal['sp'] = sp; ops.append('calsp %s' % specials_text(sp))
-        elif r < 0.93:
+        elif r < 0.92:
             a = al[i]
             a['sod'] = rng.randrange(D)
             ops.append('init %d %d %s %d' % (i, a['sod'], mask_text(a['mask']) if a['kind'] == 'wk' else '-', 1 if a['wd'] else 0))
-        elif r < 0.95:
+        elif r < 0.955:
             ops.append('cl %d' % i); al[i]['on'] = False
             if rng.random() < 0.7: ops.append('cb %d' % i)
+            if rng.random() < 0.8:        # cleanup() forgets time zone / target / callback: re-initialise and enable again
+                a = al[i]; a['tz'] = 0
+                ops.append('init %d %d %s %d' % (i, a['sod'], mask_text(a['mask']) if a['kind'] == 'wk' else '-', 1 if a['wd'] else 0))
+                ops.append('en %d' % i); a['on'] = True
+        elif r < 0.965:
+            ops.append('del %d' % i)
+            if rng.random() < 0.6:
+                ops.append(rng.choice(['calmask %d' % rng.choice([0, 62, 127]), 'calsp -']))     # the calendar must not touch the dead alarm
+            if rng.random() < 0.5:
+                ops.append('new %d %s' % (i, al[i]['kind'])); al[i]['on'] = False
         elif r < 0.98:
             a = al[i]; a['tz'] = rng.choice(range(-12 * 60, 14 * 60 + 1, 15))
             ops.append('tz %d %d' % (i, a['tz']))
@@ -251,29 +290,93 @@ def gen_far(rng):
     return ops
 
 
+def days_from_civil(y, m, d):
+    y -= m <= 2
+    era = y // 400
+    yoe = y - era * 400
+    doy = (153 * (m + (-3 if m > 2 else 9)) + 2) // 5 + d - 1
+    doe = yoe * 365 + yoe // 4 - yoe // 100 + doy
+    return era * 146097 + doe - 719468
+
+
+def cron_item(rng, lo, hi):
+    r = rng.random()
+    if r < 0.35: return str(rng.randint(lo, hi))
+    if r < 0.55:
+        a = rng.randint(lo, hi); b = rng.randint(a, hi)
+        return '%d-%d' % (a, b)
+    if r < 0.7: return '*/%d' % rng.choice([1, 2, 3, 5, 7, 10, 15, 20, 30, 59])
+    if r < 0.8: return '%d/%d' % (rng.randint(lo, hi), rng.choice([1, 2, 3, 5, 10, 15]))
+    if r < 0.9:
+        a = rng.randint(lo, hi); b = rng.randint(a, hi)
+        return '%d-%d/%d' % (a, b, rng.choice([1, 2, 3, 4, 5, 7]))
+    return '*'
+
+
+def cron_field(rng, lo, hi, star=0.4):
+    if rng.random() < star: return '*'
+    return ','.join(cron_item(rng, lo, hi) for _ in range(rng.choice([1, 1, 1, 2, 3])))
+
+
+def gen_cron(rng):
+    ops = []
+    for _ in range(rng.choice([3, 6, 10])):
+        sec = cron_field(rng, 0, 59, 0.2); mi = cron_field(rng, 0, 59, 0.3); hr = cron_field(rng, 0, 23, 0.4)
+        dom = cron_field(rng, 1, 31, 0.5); mon = cron_field(rng, 1, 12, 0.5); dow = cron_field(rng, 0, 7, 0.5)
+        # stay inside what ccronexpr can reach (it gives up when the month must advance more than 4 years after the start):
+        # never restrict all three of dom/mon/dow, and with a restricted month keep a day-of-month <= 28 reachable
+        if dom != '*' and mon != '*' and dow != '*': dow = '*'
+        if dom != '*' and mon != '*': dom = dom + ',' + str(rng.randint(1, 28))
+        r = rng.random()
+        if r < 0.55:
+            y = rng.randint(1970, 2104); m = rng.randint(1, 12)
+            if rng.random() < 0.3: y, m = rng.choice([1972, 2000, 2024, 2096, 2100, 2023]), rng.choice([2, 3])
+            if rng.random() < 0.15: m = rng.choice([12, 1])
+            first = days_from_civil(y, m, 1) * D
+            t = first + rng.choice([-2, -1, 0, 1, -D, -D - 1, -D + 1, D - 1, rng.randrange(-3 * D, 3 * D)])
+        elif r < 0.6: t = rng.choice([0, 1, 59, 60, 3599, 3600, D - 1, D])
+        else: t = rng.randrange(0, U32 - 5 * 366 * D)
+        t = max(0, min(t, U32 - 5 * 366 * D))
+        ops.append('cron %s %s %s %s %s %s %d' % (sec, mi, hr, dom, mon, dow, t))
+    return ops
+
+
 def gen(rng, tier):
     n = 250 if tier == 'quick' else 4000
     # malformed stream: both sides must answer bad-op
     yield ['wk 1 1111111', 'wk x 1111111 5', 'wk 1 1111112 5', 'wk 1 1111111 4294967296', 'os 1', 'wd 1 2 62 - 5', 'wd 1 1 256 - 5',
            'wd 1 1 62 5:2 5', 'wd 1 1 62 5:1, 5', 'new 4 wk', 'new 0 cron', 'en 0', 'new 0 wk', 'new 0 wk', 'init 0 1 1111111', 'init 0 abc 1111111 1',
-           'tz 0 1441', 'tz 0 -1441', 'adv -1', 'adv 40000000001', 'wall 4294967296000', 'calmask 256', 'calsp 5', 'frob', 'dis 3', 'rf 2', 'cb 1']
+           'tz 0 1441', 'tz 0 -1441', 'tz 0 05', 'adv 007', 'new 1 wk del1', 'new 1 wk rf9', 'new 1 wk rf0,,rf0', 'new 1 wk cs5:1+', 'cron * * * * *  5',
+           'cron * * * * * * x', 'cron 08 * * * * * 5', 'cron 1-2-3 * * * * * 5', 'cron 1//2 * * * * * 5', 'cron */x * * * * * 5', 'cron , * * * * * 5', 'cron MON * * * * * 5', 'del 2', 'adv -1', 'adv 40000000001', 'wall 4294967296000', 'calmask 256', 'calsp 5', 'frob', 'dis 3', 'rf 2', 'cb 1']
     # directed
     yield ['wk 36000 1111111 1700000000', 'wk 0 0000000 1700000000', 'wk 86399 0000100 1699999999', 'os 0 86399', 'os 0 86400',
            'wd 30600 1 62 - 1700000000', 'wd 30600 1 0 - 1700000000', 'wd 0 1 0 20042:1 1700000000', 'wd 0 1 0 20043:1 1700000000']
     yield ['new 0 wk', 'init 0 36000 1111111 1', 'tz 0 0', 'wall 1700006400000', 'en 0', 'adv 1', 'dis 0', 'adv 1800000', 'en 0']   # disable/enable
     yield ['wall 1700006400000', 'calmask 0', 'calsp 19736:1', 'new 0 wd', 'init 0 0 - 1', 'en 0', 'adv 1000', 'adv 5000000000']   # > 49.7 days
     yield ['new 0 os', 'init 0 100 - 1', 'wall 86400000000', 'en 0', 'mono 5', 'adv 99995', 'adv 5', 'adv 86400000', 'en 0', 'adv 86400000']
+    # cron: parser errors (answered init=0 by both), Sunday as 7, dom AND dow, leap day, steps from a bare number
+    yield ['cron 60 * * * * * 5', 'cron * * 24 * * * 5', 'cron * * * 0 * * 5', 'cron * * * 32 * * 5', 'cron * * * * 13 * 5', 'cron * * * * 0 * 5',
+           'cron * * * * * 8 5', 'cron 5-3 * * * * * 5', 'cron */0 * * * * * 5', 'cron 0 0 0 * * 7 1700000000', 'cron 0 0 0 13 * 5 1700000000',
+           'cron 0 0 0 29 2 * 1700000000', 'cron 50/4 * * * * * 1700000000', 'cron 59 59 23 31 12 * 1700000000', 'cron 0 0 0 1 1 * 4102444799',
+           'cron 0 0 12 1,15 * 1-5 951782400']
+    # a callback that refreshes its own alarm on an early wake-up (monotonic ahead of wall): the instant is armed again
+    yield ['new 0 wk rf0', 'init 0 100 1111111 1', 'tz 0 0', 'wall 86400000000', 'en 0', 'mono 5', 'adv 99995', 'adv 5', 'adv 86400000']
+    # destruction: enabled workday alarm, and one whose enable() failed, then a calendar update
+    yield ['new 0 wd', 'init 0 100 - 1', 'en 0', 'del 0', 'calmask 62', 'calmask 0', 'new 0 wd', 'init 0 100 - 1', 'en 0', 'del 0', 'calsp -']
+    yield ['new 0 wd del1,cm0', 'new 1 wd', 'init 0 100 - 1', 'init 1 200 - 1', 'en 0', 'en 1', 'adv 86400000', 'calmask 62']
     for _ in range(n):
         yield gen_pure(rng)
     for _ in range(n):
         yield gen_history(rng, rng.choice([4, 8, 16, 30]))
     for _ in range(max(10, n // 8)):
         yield gen_far(rng)
+    for _ in range(n // 2):
+        yield gen_cron(rng)
 
 
 def nontrivial(ops, model_lines):
     tags = ' '.join(l for l in model_lines if l.startswith('B '))
-    keys = ('fire-', 'arm-far', 'rearm-far', 'wk-week', 'wd-week', 'wd-far', 'wd-weeks', 'os-week')
+    keys = ('fire-', 'arm-far', 'rearm-far', 'wk-week', 'wd-week', 'wd-far', 'wd-weeks', 'os-week', 'cron-month', 'cron-year', 'cron-day', 'destroy-subscribed', 'script-run')
     return 1 if any(k in tags for k in keys) else None
 
 
@@ -289,8 +392,9 @@ LEVEL_TEXT = ('Lean 4 theorems over a model of the alarm module: the next-instan
               'conversion of the unpatched tree is refuted by a concrete witness); targets strictly increase across re-arms even on early wake-ups; '
               'one-shot fires once per enable; a disabled alarm has no armed timer.  Tied to the real code on every run by differential execution '
               '(probe subclasses + real alarms on the real loop under virtual wall/monotonic clocks, ASan+UBSan)')
-LEVEL_NOTE = ('trusted: Lean kernel, hand-written model + differential tie (coverage bounded by the generator, measured), C02 timer semantics, clock '
-              'interposition; partial: the cron alarm (third-party ccronexpr) is neither modelled nor tied; theorems exclude the last 368 days of the '
-              'uint32 epoch range and local times before 1970')
+LEVEL_NOTE = ('trusted: Lean kernel, hand-written model + trace-acceptor tie (coverage bounded by the generator, measured), C02 timer semantics, clock '
+              'interposition; PARTIAL: the cron alarm uses the third-party evaluator ccronexpr, tied by correspondence only to a proved reference semantics; '
+              'once-per-instant is proved under clear ghost flags (no refresh()/enable() while the wall clock is behind an instant already served — '
+              'counterexample kept); theorems exclude the last 368 days of the uint32 epoch range and local times before 1970')
 TECHNIQUE = 'Lean 4 proofs (earliest-instant characterisation, arming arithmetic, state-machine invariants) + model/implementation correspondence check'
 DESIGN_REF = 'DESIGN.md §6 C20, §7 row 16'
